@@ -82,7 +82,9 @@ type panicStruct struct {
 // PanicValues have different dynamic types (one of them not comparable).
 // nil stands for panic(nil): recover() gives a *runtime.PanicNilError, or nil when the program runs with GODEBUG=panicnil=1.
 // The context errors are what a task panics with when a sub-context of its own ran out (nothing to do with the lane's).
-var PanicValues = []any{"boom", errors.New("an error"), 42, panicStruct{7, "x"}, &customErr{3}, []int{1, 2, 3}, 3.5, nil, context.DeadlineExceeded, fmt.Errorf("step 3: %w", context.Canceled)}
+var PanicValues = []any{"boom", errors.New("an error"), 42, panicStruct{7, "x"}, &customErr{3}, []int{1, 2, 3}, 3.5, nil, context.DeadlineExceeded, fmt.Errorf("step 3: %w", context.Canceled),
+	// typed nils: an interface value that is not nil although what it holds is ("var e *MyErr; panic(e)")
+	(*customErr)(nil), map[string]int(nil), []int(nil), (func())(nil)}
 
 type OpKind int
 
